@@ -405,21 +405,25 @@ class Sandbox:
             filename = self.report.submission.instructor_file
         if inputs is not None:
             self.set_input(inputs)
-        if before is not None:
-            self._execute(before, filename, SandboxContextKind.RUN, threaded)
-        self.target = None
-        self._execute(code, filename, SandboxContextKind.RUN, threaded)
-        if after is not None:
-            # Executing the `after` code forgets the outcome of the code itself;
-            # unless that code fails too, the run is still known by what
-            # happened to the student's program
-            main_exception, main_feedback = self.exception, self.feedback
-            self._execute(after, filename, SandboxContextKind.RUN, threaded)
-            if self.exception is None:
-                self.exception, self.feedback = main_exception, main_feedback
-        if real_io:
-            self.clear_mocked_function('print')
-            self.clear_input()
+        try:
+            if before is not None:
+                self._execute(before, filename, SandboxContextKind.RUN, threaded)
+            self.target = None
+            self._execute(code, filename, SandboxContextKind.RUN, threaded)
+            if after is not None:
+                # Executing the `after` code forgets the outcome of the code itself;
+                # unless that code fails too, the run is still known by what
+                # happened to the student's program
+                main_exception, main_feedback = self.exception, self.feedback
+                self._execute(after, filename, SandboxContextKind.RUN, threaded)
+                if self.exception is None:
+                    self.exception, self.feedback = main_exception, main_feedback
+        finally:
+            # Also when the code ends with an exception that is handed on to
+            # the caller (a KeyboardInterrupt): the console was lent for this run
+            if real_io:
+                self.clear_mocked_function('print')
+                self.clear_input()
         return self
 
     def call(self, function, *args, target="_", threaded=None,
